@@ -59,10 +59,14 @@ RoundTrip == (codec = "b16" /\ txt = <<>>) =>   \* evaluated once, in one initia
 --------------------------------------------------------------------------
 (* S->I generators *)
 
+\* The zone-file reader path is exercised for non-empty texts made of token
+\* characters; an empty Base32 blob cannot be written in an NSEC3 record.
+Scannable == Len(txt) > 0 /\ (codec = "b32" => DecOf(codec, txt) # Ok(<<>>))
 EmitDec == PrintT("CASE " \o ToJson(
-              [in  |-> [kind |-> "dec", codec |-> codec, text |-> txt],
+              [in  |-> [kind |-> "dec", codec |-> codec, text |-> txt, scan |-> Scannable],
                exp |-> [fin |-> FinOf(codec, st), dec |-> DecOf(codec, txt),
-                        conv |-> DecOf(codec, txt), sticky |-> TRUE]]))
+                        conv |-> DecOf(codec, txt), sticky |-> TRUE]
+                       @@ (IF Scannable THEN [scan |-> DecOf(codec, txt)] ELSE <<>>)]))
 
 EmitEnc == codec = "b16" /\ txt = <<>> =>
    \A c \in Codecs : \A o \in SeqsUpTo(Octs, MaxOct) :
